@@ -160,6 +160,21 @@ func c15Corpus(thorough bool) []*c15Entry {
 	}
 	polyLossless("polygon-lossless-13-loops", s2.PolygonFromLoops(isl))
 	polyCompressed("polygon-compressed-13-loops", s2.PolygonFromLoops(islSnapped))
+	// hand-assembled lossless polygons with 14 loops one of which (not the last) has zero vertices:
+	// header, the loops' own encodings, the polygon bound
+	for _, zeroAt := range []int{0, 3, 12} {
+		var body []byte
+		for i := 0; i < 14; i++ {
+			if i == zeroAt {
+				body = append(body, z0...)
+			} else {
+				body = append(body, encodeOf(s2.RegularLoop(ll(-60+9*float64(i), -150+23*float64(i)), s1.Degree*2, 4).Encode)...)
+			}
+		}
+		d := append([]byte{1, 1, 0, 14, 0, 0, 0}, body...)
+		d = append(d, fullBound...)
+		add(fmt.Sprintf("polygon-lossless-14-loops-zero-vertex-loop-at-%d", zeroAt), "Polygon", d, c15Field{"nloops", 3, 4, c15MaxLoops})
+	}
 	if thorough {
 		polyCompressed("polygon-compressed-level1", s2.PolygonFromLoops([]*s2.Loop{snapLoop(ll(10, 10), 50, 4, 1, 0)}))
 		polyLossless("polygon-lossless-40", s2.PolygonFromLoops([]*s2.Loop{s2.RegularLoop(p, s1.Degree*3, 40)}))
